@@ -247,3 +247,63 @@ def msg_recvMessageStanza(self: Obj("YowMessagesProtocolLayer"), node: Obj("Prot
     ensures(implies(n_events("protobytes_to_message") == 1 and not truthy(payload("conversation")) and not truthy(payload("extended_text"))
                     and truthy(payload("sender_key_distribution_message")), n_events("toUpper") == 0 and n_events("toLower") == 0))
     propagates("*")
+
+
+# =====================================================================================================================
+# native generators (replay / search on the real handlers; entity constructors run for real)
+# =====================================================================================================================
+def _stanza_attrs(rng, types):
+    a = {}
+    if rng.random() < 0.9:
+        a['id'] = rng.choice(['1', 'abc-12', '1517-3'])
+    if rng.random() < 0.9:
+        a['from'] = rng.choice(['4915100000000@s.whatsapp.net', '4915100000000-1500000000@g.us', '120363041234567890@g.us',
+                                'status@broadcast', 's.whatsapp.net'])
+    if rng.random() < 0.85:
+        a['type'] = rng.choice(types)
+    if rng.random() < 0.5:
+        a['participant'] = rng.choice(['4915111111111@s.whatsapp.net', '4915122222222@s.whatsapp.net'])
+    if rng.random() < 0.7:
+        a['t'] = '1500000000'
+    if rng.random() < 0.5:
+        a['notify'] = 'n'
+    if rng.random() < 0.3:
+        a['offline'] = '0'
+    return a
+
+
+def gen_recvNotification(rng, n):
+    for it in range(n):
+        a = _stanza_attrs(rng, ['picture', 'status', 'contacts', 'subject', 'w:gp2', 'encrypt', 'foo', ''])
+        ch = []
+        if a.get('type') == 'picture' and rng.random() < 0.8:
+            ch = [{'tag': rng.choice(['set', 'delete', 'other']), 'attributes': {'jid': 'a@s.whatsapp.net', 'id': '7'}}]
+        if a.get('type') == 'status':
+            ch = [{'tag': 'set', 'attributes': {}, 'data': [104, 105]}]
+        yield {'inputs': {'self': {}, 'node': {'tag': 'notification', 'attributes': a, 'children': ch}},
+               'raises_at': {rng.choice(['toLower', 'toUpper', 'entity.fromNode']): [0]} if rng.random() < 0.1 else {}}
+
+
+def gen_recvCall(rng, n):
+    for it in range(n):
+        a = _stanza_attrs(rng, ['x'])
+        a.pop('type', None)
+        ch = []
+        if rng.random() < 0.85:
+            ca = {}
+            if rng.random() < 0.8:
+                ca['call-id'] = rng.choice(['c1', '99'])
+            ch = [{'tag': rng.choice(['offer', 'terminate', 'relaylatency', 'accept']), 'attributes': ca}]
+        yield {'inputs': {'self': {}, 'node': {'tag': 'call', 'attributes': a, 'children': ch}},
+               'raises_at': {rng.choice(['toLower', 'toUpper', 'call.fromNode']): [0]} if rng.random() < 0.1 else {}}
+
+
+def gen_recvIq(rng, n):
+    for it in range(n):
+        a = _stanza_attrs(rng, ['get', 'set', 'result'])
+        a.pop('participant', None)
+        if rng.random() < 0.6:
+            a['xmlns'] = rng.choice(['urn:xmpp:ping', 'w:p', 'urn:xmpp:whatsapp:push'])
+        yield {'inputs': {'self': {}, 'node': {'tag': 'iq', 'attributes': a, 'children': []}},
+               'opaque_results': {'generateId': ['g1', 'g2']},
+               'raises_at': {'toLower': [0]} if rng.random() < 0.1 else {}}
